@@ -132,7 +132,8 @@ def group_corpus(spec):
         T = TRANS_CORPUS[np.arange(len(th)) % len(TRANS_CORPUS)][:, :2]
         return np.concatenate([T, th[:, None]], axis=1)
     if isinstance(spec, RnSpec):
-        return np.concatenate([TRANS_CORPUS[:, : spec.k], np.ones((1, spec.k))])
+        T = np.tile(TRANS_CORPUS, (1, 2))[:, : spec.k]
+        return np.concatenate([T, np.ones((1, spec.k))])
     if isinstance(spec, ProductSpec):
         cs = [group_corpus(p) for p in spec.parts]
         L = max(len(c) for c in cs)
@@ -165,7 +166,7 @@ def algebra_corpus(spec):
         T = np.clip(TRANS_CORPUS[np.arange(len(t2)) % len(TRANS_CORPUS)][:, :2], -1e3, 1e3)
         return np.concatenate([T, t2[:, None]], axis=1)
     if isinstance(spec, RnSpec):
-        return np.concatenate([np.clip(TRANS_CORPUS[:, : spec.k], -1e3, 1e3), np.ones((1, spec.k))])
+        return np.concatenate([np.clip(np.tile(TRANS_CORPUS, (1, 2))[:, : spec.k], -1e3, 1e3), np.ones((1, spec.k))])
     if isinstance(spec, ProductSpec):
         cs = [algebra_corpus(p) for p in spec.parts]
         L = max(len(c) for c in cs)
@@ -199,16 +200,27 @@ def run_contract_slice(ctx, specs, n, ops):
                 try:
                     a = G.elem(ca.DM(A[k]))
                     b = G.elem(ca.DM(B[k]))
+                    x = G.algebra.elem(ca.DM(X[k]))
                     if "product" in ops:
                         a * b
+                        a * b  # a second use of the same element objects: operations must not have side effects
                     if "inverse" in ops:
                         a.inverse()
                     if "identity" in ops and k < 3:
                         G.identity()
                     if "exp" in ops:
-                        G.algebra.elem(ca.DM(X[k])).exp(G)
+                        x.exp(G)
+                        x.exp(G)
                     if "log" in ops:
                         a.log()
+                    # operands are values: no operation may modify the element it was given (history independence)
+                    pa, pb, px = K.num(a.param), K.num(b.param), K.num(x.param)
+                    same = (pa is not None and np.array_equal(pa.ravel(), A[k]) and pb is not None and np.array_equal(pb.ravel(), B[k])
+                            and px is not None and np.array_equal(px.ravel(), X[k]))
+                    ctx.tally("operands_not_modified:" + spec.name)
+                    if not same:
+                        ctx.violation("operands_not_modified", spec.name, {"X_before": A[k], "X_after": None if pa is None else pa.ravel(),
+                                                                            "Y_before": B[k], "Y_after": None if pb is None else pb.ravel()})
                 except NotImplementedError:
                     pass
                 except Exception as e:  # defects that raise are reported by the driver checks
